@@ -1,19 +1,18 @@
 # C08 Configuration parser is total and fails cleanly
-ASSUMPTIONS = ["path storage = static buffer object with a harness vtable (private, mutable, capacity 24, growth refused); the real path_* functions run on it",
+ASSUMPTIONS = ["path storage functions bound to the flat path model PM (include/stubs/pathmodel.c, 32 bytes); the parser units are real",
                "one parser call per query ('*' section-prefix format with default delimiters); the driver loop, the other two styles and tree building are outside the built queries",
                "mpt_log is an empty stub"]
-U = ["mptcore/parse/%s.c" % f for f in "parse_format_pre parse_option parse_data parse_getchar parse_nextvis parse_endline parse_ncheck parse_accept".split()] + [
-    "mptcore/config/%s.c" % f for f in "path_addchar path_add path_del path_valid path_fini".split()] + [
-    "mptcore/array/array_slice.c", "mptcore/array/array_append.c", "mptcore/array/buffer_insert.c", "mptcore/array/buffer_alloc.c",
-    "mptcore/array/buffer_set.c", "mptcore/array/array_clone.c", "mptcore/misc/refcount.c"]
-COMMON = dict(units=U, fp=BUF_FP + [(r"getc", ["h_getc"])], stubs=["libc.c", "libc_loops.c", "no_traits.c", "malloc_pages.c"],
-              flags=["--max-field-sensitivity-array-size", "100"])
+REN = {"mpt_path_addchar": "verif_pm_addchar", "mpt_path_delchar": "verif_pm_delchar", "mpt_path_valid": "verif_pm_valid",
+       "mpt_path_add": "verif_pm_add", "mpt_path_invalidate": "verif_pm_invalidate"}
+U = [("mptcore/parse/%s.c" % f, REN) for f in "parse_format_pre parse_option parse_data parse_getchar".split()] + [
+    "mptcore/parse/%s.c" % f for f in "parse_nextvis parse_endline parse_ncheck parse_accept".split()]
+COMMON = dict(units=U, fp=[(r"getc", ["h_getc"])], stubs=["libc.c", "pathmodel.c"], flags=["--max-field-sensitivity-array-size", "100"])
 
 
 def queries(tier):
     n = 3 if tier == "quick" else 5
     return [Q("format_pre_total", "C08/pre.c", harness_defines={"MODE": 1, "N": n}, unwind_default=n + 3,
-              unwind={"memcpy": 26, "memset": 26, "memmove": 26, "memchr": 6},
+              unwind={"memchr": 6, "verif_pm_add": 34},
               bounds="one mpt_parse_format_pre call on %d fully symbolic input bytes (all 256 values), empty initial path" % n,
               outside="inputs above %d bytes per call; non-empty initial path; 'enc'/'sep' styles; the mpt_parse_config loop; names/values beyond the 24-byte storage" % n,
-              timeout=900 if tier == "quick" else None, **COMMON)]
+              **COMMON)]
